@@ -33,7 +33,8 @@ pub struct OracleState {
     pub commit_has_path: BTreeMap<u64, bool>,
     pub old_leaf_keys: BTreeMap<(usize, usize), (Vec<u8>, u64)>,
     pub c13: crate::c13::C13State,
-    pub seal_pairs: BTreeSet<(Vec<u8>, Vec<u8>)>,
+    /// (key, nonce) of every AEAD encryption of the world -> where it was first used
+    pub seal_pairs: BTreeMap<(Vec<u8>, Vec<u8>), String>,
     pub bursts: u32,
     pub cur_g: usize,
     pub final_written: BTreeSet<(usize, usize)>,
@@ -1364,14 +1365,27 @@ pub fn unique_seals(w: &mut World, events: &[crate::crypto::Ev], what: &str) -> 
         return Ok(());
     }
     for e in events {
-        if let crate::crypto::Ev::AeadSeal { key, nonce, party, .. } = e {
+        if let crate::crypto::Ev::AeadSeal { key, nonce, party, with_aad, .. } = e {
             w.stats.check("key-nonce-pair-unique");
-            if !w.ext.seal_pairs.insert((key.clone(), nonce.clone())) {
+            let here = format!("{what} of P{party} at step {}", w.step_no);
+            if let Some(first) = w.ext.seal_pairs.insert((key.clone(), nonce.clone()), here) {
+                if !*with_aad {
+                    // not an encryption of message content: the GroupInfo of a Welcome is sealed under the welcome key
+                    // and nonce, which RFC 9420 derives from the joiner secret alone. A member that withdraws a commit
+                    // and builds a byte-identical one (same proposals, no path, deterministic signature scheme)
+                    // arrives at the same joiner secret and so at the same welcome key and nonce.
+                    w.stats.probe("welcome-key-derived-again-for-an-identical-rebuilt-commit");
+                    continue;
+                }
                 return Err(Violation::new(
                     &w.cfg.property,
                     "key-nonce-unique",
                     format!("key-nonce-reused:{what}"),
-                    format!("P{party}: an AEAD encryption while building a {what} used a (key, nonce) pair that was used before in this world"),
+                    format!(
+                        "P{party}: an AEAD encryption while building a {what} used a (key, nonce) pair that was used before in this world (first use: {first}; key {}.. nonce {})",
+                        hex::encode(&key[..key.len().min(6)]),
+                        hex::encode(nonce)
+                    ),
                 ));
             }
         }
